@@ -230,6 +230,7 @@ class Block:
 
         :return Block:
         """
+        pos_start = raw.tell()
         block_header = raw.read(80)
         block_hash_calc = double_sha256(block_header)[::-1]
         if not block_hash:
@@ -238,7 +239,7 @@ class Block:
             raise ValueError("Provided block hash does not correspond to calculated block hash %s" %
                              block_hash_calc.hex())
 
-        raw.seek(0)
+        raw.seek(pos_start)
         version = raw.read(4)[::-1]
         prev_block = raw.read(32)[::-1]
         merkle_root = raw.read(32)[::-1]
